@@ -211,6 +211,8 @@ class System(world.World):
         '''Controller.serve's start-up, under the default schedule.'''
         self.daemon.set_chain(blocks)
         self.daemon.set_mempool(list(mempool_txs))
+        scheduled = not self.daemon.immediate
+        self.daemon.immediate = True        # the set-up phase is not explored
         self.loop.run_coro(self.daemon.height(), fire_timers=False)
         self.serve_task = self.loop.create_task(
             self.session_mgr.serve(self.notifications, self.mempool_event))
@@ -223,6 +225,7 @@ class System(world.World):
         self.run_idle()
         if self.session_mgr.notified_height is None:
             raise Broken('boot: notifications were not started')
+        self.daemon.immediate = not scheduled
         return self
 
     def connect(self, rpc=False, name='c'):
